@@ -220,3 +220,16 @@ Theorem jose_call_stays_in_the_family_refuted :
   crypto_stage (K := unit) (C := unit) (M := string) fam (POk tt) (fun _ => POk tt) (fun _ => PRaise "InvalidTag") = Exc EValueError.
 Proof. exact crypto_stage_refuted. Qed.
 Print Assumptions jose_call_stays_in_the_family_refuted.
+
+(* ---- the type check of registration metadata, for any lists of member names (RFC 7591 and OpenID Connect registration) *)
+Theorem metadata_type_check_never_raises : forall arrays strings d, is_exc (typed_members arrays strings d) = false.
+Proof. intros. apply typed_members_total; exact (fun _ => true). Qed.
+Print Assumptions metadata_type_check_never_raises.
+
+Theorem metadata_type_check_passes_only_typed_members :
+  forall arrays strings d,
+  typed_members arrays strings d = Val tt ->
+  (forall k, In k arrays -> member d k = PNone \/ str_list (member d k) = true) /\
+  (forall k, In k strings -> member d k = PNone \/ is_str (member d k) = true).
+Proof. intros arrays strings d. apply typed_members_sound; exact (fun _ => true). Qed.
+Print Assumptions metadata_type_check_passes_only_typed_members.
